@@ -167,8 +167,8 @@ CLAIMS = {
         "window test is integer arithmetic, so the count is independent of floating point. Consumers (get_parameter_distributions, "
         "get_mean_distribution) return exactly one entry per piece. split_array with shifts equal to the tile sizes: two nested loop invariants "
         "(symbolic array shape and tile size) - at loop exit (both exits) the list is the complete row-major partition: R*C tiles, tile (r,c) = "
-        "data[r*th:min((r+1)th,H), c*tw:min((c+1)tw,W)]; the two trim predicates (extracted lambdas) hold exactly for full-size tiles. NOT decided "
-        "here: blimpy's mapping of a frequency window to channels, the written files of split_fil, the final ndarray packaging - bounded native runs.",
+        "data[r*th:min((r+1)th,H), c*tw:min((c+1)tw,W)]; the two trim predicates (extracted lambdas) hold exactly for full-size tiles. split_fil performs exactly one write per yielded piece, in order, whatever the output directory already contains. NOT decided "
+        "here: blimpy's mapping of a frequency window to channels, the content blimpy writes, the final ndarray packaging - bounded native runs.",
    note="level 'other': the per-piece data/frequency clause goes through blimpy (external); the contract side proves the requests and counts, the bounded side the files",
    technique="contract-based deductive verification (loop invariants incl. nested loops with break, ghost row/column maps, extracted predicates); bounded native runs on written files"),
  'C03': dict(cat='other', ref='DESIGN.md 2/C03',
